@@ -27,6 +27,7 @@ type Env struct {
 	pkg     *types.Package
 	local   func(string) (Val, bool)
 	bound   map[string]Val
+	inViewDispatch bool
 }
 
 func (env *Env) with(name string, v Val) *Env {
@@ -1224,6 +1225,45 @@ func (env *Env) viewOf(ghost string, obj Val) (Val, bool, error) {
 				ptr = obj.L[1]
 			}
 		}
+	}
+	if gd := fx.e.ghosts[ghost]; concrete == nil && isInterface(obj.T) && len(obj.L) == 2 && !env.inViewDispatch && gd != nil && gd.Dispatch {
+		// dynamic type unknown: case split over the pointer types that define a view of this ghost
+		raw := sSel(fx.heapVar(env.heap, "ghost."+ghost, ""), obj.L[1])
+		out := raw
+		var T types.Type
+		n := 0
+		for i := len(fx.e.cs.Views) - 1; i >= 0; i-- {
+			vd := fx.e.cs.Views[i]
+			if vd.Ghost != ghost {
+				continue
+			}
+			tp := fx.e.tpkgs[vd.PkgPath]
+			if tp == nil {
+				continue
+			}
+			tn, ok := tp.Scope().Lookup(vd.Type).(*types.TypeName)
+			if !ok {
+				continue
+			}
+			pt := types.NewPointer(tn.Type())
+			id := fx.e.tt.id(pt)
+			ne := *env
+			ne.inViewDispatch = true
+			v, ok2, err := ne.viewOf(ghost, Val{T: obj.T, L: []string{intLit(int64(id)), obj.L[1]}})
+			if err != nil {
+				return Val{}, false, err
+			}
+			if !ok2 || len(v.L) != 1 {
+				continue
+			}
+			out = sIte(sEq(obj.L[0], intLit(int64(id))), v.L[0], out)
+			T = v.T
+			n++
+		}
+		if n == 0 {
+			return Val{}, false, nil
+		}
+		return Val{T: T, L: []string{out}}, true, nil
 	}
 	if concrete == nil {
 		return Val{}, false, nil
